@@ -50,8 +50,15 @@ def run(run):
             proj = E.small_project(rng, h, nfiles=2)
             try:
                 kinds = [k for k in QG.KINDS_DEFAULT if proj.by_kind.get(k)]
+                ENTITY_LIKE = ["lt", "notX", "amp", "copyOf", "regexLike", "gt", "quot", "ampere"]
                 for i in range(nq // nproj):
                     q = QG.random_query(rng, kinds=kinds, values=proj.values, depth=3)
+                    if i < 3:
+                        # always: an alias spelled like the beginning of an HTML entity name, right behind `&&` in the tight text
+                        ka = rng.choice([k for k in kinds if k in QG.STRING_ACC] or kinds)
+                        al = ENTITY_LIKE[(pi * 3 + i) % len(ENTITY_LIKE)]
+                        at = [QG.accessor_atom(rng, al, ka, proj.values) for _ in range(3)]
+                        q = c01.make_query([(ka, al)], QG.mk("and", at[0], QG.mk("or", at[1], at[2])), al)
                     base_text = QG.plain(q)
                     base = E.engine_case(proj, d, base_text, q)
                     c01.judge(run, "C14", proj, base_text, q, base, stats, mism)
@@ -67,10 +74,12 @@ def run(run):
                     stats["relayout_relation:" + rel] += 1
                     if rel != "true":
                         outside.append(dict(tight=tight, layout=base_text))
-                    for j in range(nlay + 2):
-                        # (the last two: one token per line, flush left; the same with blank lines between the tokens)
+                    for j in range(nlay + 3):
+                        # (the last three: one token per line, flush left; the same with blank lines between the tokens; the
+                        #  tight text itself: no white space where none is needed)
                         text = (GQ.layout(q.lexemes, q.kinds, rng, aggressive=True) if j < nlay else
-                                GQ.column_layout(q.lexemes, q.kinds) if j == nlay else GQ.paragraph_layout(q.lexemes, q.kinds, rng))
+                                GQ.column_layout(q.lexemes, q.kinds) if j == nlay else
+                                GQ.paragraph_layout(q.lexemes, q.kinds, rng) if j == nlay + 1 else tight)
                         lex_pair(text)
                         rel = d.call("relayout", tight, text)[0]
                         stats["relayout_relation:" + rel] += 1
@@ -138,7 +147,7 @@ def run(run):
                                                   dict(base=base_text, layout=text, extracted=extracted, base_results=sum(wantc.values()), layout_results=sum(got2.values())))
                     # very long physical lines (a whole query joined onto one line): same tokens, same results. The
                     # 12 shifted variants move every byte offset across token interiors; one variant exceeds 64 KiB.
-                    if long_done[pi] < 2 and q.cond is not None and len(q.from_items) == 1 and not any("\n" in lx or "\r" in lx for lx in q.lexemes):
+                    if long_done[pi] < 2 and i >= 3 and q.cond is not None and len(q.from_items) == 1 and not any("\n" in lx or "\r" in lx for lx in q.lexemes):
                         long_done[pi] += 1
                         k0, a0 = q.from_items[0]
                         for nconj, shifts in ((330, range(12)), (4800, (0,))):
